@@ -30,7 +30,7 @@ func checkC08(tier string) int {
 	states := []string{"inflight", "queued", "deferred", "expired"}
 	memqs := []int64{10, 0}
 	ephs := []bool{false, true}
-	secs := 20
+	secs := 5
 	if tier == "thorough" {
 		secs = 120
 	}
@@ -38,16 +38,30 @@ func checkC08(tier string) int {
 	for _, st := range states {
 		for _, eph := range ephs {
 			for _, mq := range memqs {
-				if eph && mq == 0 && tier != "thorough" {
-					continue
-				}
 				for _, pr := range pairs(all) {
-					admin := isAdmin(pr[0]) || isAdmin(pr[1]) || pr[0] == "disc1" || pr[1] == "disc1" || pr[0] == "sub3" || pr[1] == "sub3"
-					if !admin {
+					admin := isAdmin(pr[0]) || isAdmin(pr[1]) || has(pr, "disc1") || has(pr, "sub3")
+					if !admin || !realistic(pr) {
 						continue // consumer-only pairs belong to C02
 					}
-					if tier != "thorough" && !(isAdmin(pr[0]) && isAdmin(pr[1])) && st == "expired" && !has(pr, "scan") {
-						continue
+					if tier != "thorough" {
+						// quick: the full pair set from the two richest states on a durable
+						// memory-backed channel; the other states / ephemeral / disk-backed
+						// variants only for pairs that involve a message operation
+						msgOp := false
+						for _, o := range pr {
+							for _, c := range []string{"fin1", "req1", "req1d", "touch1", "scan", "rdy2", "pub", "empty_ch", "del_ch"} {
+								if o == c {
+									msgOp = true
+								}
+							}
+						}
+						base := (st == "inflight" || st == "queued") && !eph && mq == 10
+						if !base && !(msgOp && (st == "inflight" || (st == "deferred" && !eph && mq == 10) || (st == "expired" && has(pr, "scan") && !eph && mq == 10))) {
+							continue
+						}
+						if !base && eph && mq == 0 {
+							continue
+						}
 					}
 					specs = append(specs, nsqd.MicroSpec{State: st, Eph: eph, MemQ: mq, Ops: pr})
 				}
@@ -62,6 +76,31 @@ func checkC08(tier string) int {
 	}
 	runMicros(rep, specs, secs, false)
 	return rep.Finish()
+}
+
+// connOf names the connection an operation is a command of ("" if none): commands of one
+// connection are executed by its single IOLoop goroutine and can never overlap.
+func connOf(op string) string {
+	switch op {
+	case "fin1", "fin1x2", "req1", "req1d", "touch1", "cls1", "rdy1_2", "disc1":
+		return "c1"
+	case "fin2", "req2", "touch2", "rdy2", "disc2":
+		return "c2"
+	}
+	return ""
+}
+
+func realistic(ops []string) bool {
+	seen := map[string]bool{}
+	for _, o := range ops {
+		if c := connOf(o); c != "" {
+			if seen[c] {
+				return false
+			}
+			seen[c] = true
+		}
+	}
+	return true
 }
 
 func isAdmin(op string) bool {
@@ -95,11 +134,14 @@ func checkC02(tier string) int {
 	for _, st := range []string{"inflight", "expired", "requeued", "held2", "deferred"} {
 		for _, mq := range []int64{10, 0} {
 			for _, pr := range pairs(ops) {
+				if !realistic(pr) {
+					continue
+				}
 				specs = append(specs, nsqd.MicroSpec{State: st, MemQ: mq, Ops: pr})
 			}
 		}
 	}
-	for _, tr := range [][]string{{"fin1", "scan", "rdy2"}, {"touch1", "scan", "rdy2"}, {"req1", "scan", "fin1"}, {"fin1", "fin2", "scan"}} {
+	for _, tr := range [][]string{{"fin1", "scan", "rdy2"}, {"touch1", "scan", "rdy2"}, {"req1", "scan", "fin2"}, {"fin1", "fin2", "scan"}, {"touch1", "scan", "fin2"}} {
 		for _, st := range []string{"expired", "held2"} {
 			specs = append(specs, nsqd.MicroSpec{State: st, MemQ: 10, Ops: tr})
 		}
